@@ -1,21 +1,17 @@
 /-
-M8 (part 6) — the program-level rules of grammar.pest read over tokens, for the fragment WITHOUT iterations
-and with simple names: `problem`, `objective`, `constraint_list` / `constraint` (name, comparison or bare
-logic assertion), `consts_declaration` (`let name = exp`), `domains_declaration` (`x, y as Type` /
-`Type(exp, exp)`), and the builders of rules_parser/other_parser.rs (`parse_objective`, `parse_constraint`,
-`parse_const_declaration`, `parse_domain_declaration`, `parse_as_assertion_type`).  PEG's possessive `?` /
-`*` are kept: a failing repetition step backtracks to before its newlines.  Diffed against
-`RoocParser::parse` on generated programs of the fragment; constructs outside it (`for`, blocks, compound
-names, …) make the model reject or the lexer answer `unsupported` and are not generated.  Import-free.
+M8 (part 6) — the program-level rules of grammar.pest read over tokens: `problem`, `objective`,
+`constraint_list` / `constraint` (name, comparison or bare logic assertion, `for` iteration),
+`consts_declaration` (`let name = exp`), `domains_declaration` (`x, y_i as Type(exp, exp) for …`), and the
+builders of rules_parser/other_parser.rs (`parse_objective`, `parse_constraint`, `parse_const_declaration`,
+`parse_domain_declaration`, `parse_as_assertion_type`).  Two phases as in the Rust: the PEG reading
+(`parseProgramRaw`) and the AST building with its errors in the order the Rust raises them (`buildProgram`).
+PEG's possessive `?` / `*` are kept: a failing repetition step backtracks to before its newlines.  Diffed against
+`RoocParser::parse` on generated programs; constructs outside the model make the lexer answer `unsupported`.
+Import-free.
 -/
 import Rooc.Syntax.Parse
 import Rooc.Syntax.Format
 namespace Rooc.Syntax
-
-/-- `nl*` -/
-def skipNl : List Tok → List Tok
-  | .nl :: r => skipNl r
-  | toks => toks
 
 /-- `nl+` -/
 def needNl : List Tok → Option (List Tok)
@@ -26,50 +22,85 @@ def cmpOfTok : Tok → Option Cmp
   | .le => some .le | .ge => some .ge | .eq => some .eq | .lt => some .lt | .gt => some .gt
   | _ => none
 
-def lowerAscii (c : Char) : Char := if decide ('A' ≤ c) && decide (c ≤ 'Z') then Char.ofNat (c.toNat + 32) else c
-def lowerWord (w : String) : String := String.ofList (w.toList.map lowerAscii)
-
 /-- one expression with the fuel of `parseToks` -/
 def expAt (toks : List Tok) : PRes (PExp × List Tok) := parseExp (parseFuel toks) toks
 
-/-- `objective = { (objective_type ~ tagged_exp) | solve }` and `parse_objective` (`"min"`/`"max"`/`"solve"`
-must be spelled in lower case for `OptimizationType::from_str`) -/
-def parseObjective : List Tok → PRes (ObjKind × PExp × List Tok)
+/-- `(nl* ~ for_iteration)?` with `for_iteration = _{ ^"for" ~ iteration_declaration_list }` -/
+def optFor (toks : List Tok) : PRes ((List IterVar × List PExp) × List Tok) :=
+  match skipNl toks with
   | .word w :: r =>
-    if w == "min" then (match expAt r with | .ok (e, r') => .ok (.min, e, r') | .error e => .error e)
-    else if w == "max" then (match expAt r with | .ok (e, r') => .ok (.max, e, r') | .error e => .error e)
-    else if w == "solve" then .ok (.solve, .bool true, r)
+    if lowerWord w == "for" then
+      match iterList (parseFuel r) r [] [] with
+      | .ok res => .ok res
+      | .error .reject => .ok (([], []), toks)
+      | .error e => .error e
+    else .ok (([], []), toks)
+  | _ => .ok (([], []), toks)
+
+/-- what the PEG reads of the objective: the word of `objective_type` / `solve` as written, and the body -/
+structure RawObjective where
+  word : String
+  body : Option PExp
+  deriving Repr, Inhabited
+
+/-- `objective = { (objective_type ~ tagged_exp) | solve }`, `objective_type = @{ ^"min" | ^"max" }`,
+`solve = @{ ^"solve" }` -/
+def parseObjective : List Tok → PRes (RawObjective × List Tok)
+  | .word w :: r =>
+    if lowerWord w == "min" || lowerWord w == "max" then
+      match expAt r with
+      | .ok (e, r') => .ok ({ word := w, body := some e }, r')
+      | .error e => .error e
+    else if lowerWord w == "solve" then .ok ({ word := w, body := none }, r)
     else .error .reject
   | _ => .error .reject
 
-/-- `constraint_name = { variable ~ ":" ~ nl* }` (optional) -/
-def constraintName : List Tok → Option CName × List Tok
-  | .word w :: .colon :: r => if isKeyword w then (none, .word w :: .colon :: r) else (some (.plain w), skipNl r)
-  | toks => (none, toks)
+def CName.ofExp : PExp → Option CName
+  | .var n => some (.plain n)
+  | .cvar n idx => some (.compound n idx)
+  | _ => none
 
-/-- `tagged_exp ~ (comparison ~ tagged_exp)?` and `parse_constraint` (a constraint without comparison is the
-logic assertion `lhs = true`) -/
+/-- `variable` where a name is declared (constraint name, domain variable) -/
+def nameAt (toks : List Tok) : PRes (Option CName × List Tok) :=
+  match optVariable (parseFuel toks) toks with
+  | .ok (some v, r) => .ok (CName.ofExp v, r)
+  | .ok (none, r) => .ok (none, r)
+  | .error e => .error e
+
+/-- `constraint_name = { variable ~ ":" ~ nl* }` (optional) -/
+def constraintName (toks : List Tok) : PRes (Option CName × List Tok) :=
+  match nameAt toks with
+  | .ok (some n, .colon :: r) => .ok (some n, skipNl r)
+  | .ok _ => .ok (none, toks)
+  | .error e => .error e
+
+/-- `tagged_exp ~ (comparison ~ tagged_exp)? ~ (nl* ~ for_iteration)?` and `parse_constraint` (a constraint without
+comparison is the logic assertion `lhs = true`) -/
 def constraintBody (name : Option CName) (toks : List Tok) : PRes (PConstraint × List Tok) :=
   match expAt toks with
   | .error e => .error e
   | .ok (lhs, r1) =>
-    let assertion : PRes (PConstraint × List Tok) :=
-      .ok ({ name := name, lhs := lhs, cmp := .eq, rhs := .bool true, logic := true, iterVars := [], iters := [] }, r1)
+    let finish (cmp : Cmp) (rhs : PExp) (logic : Bool) (r : List Tok) : PRes (PConstraint × List Tok) :=
+      match optFor r with
+      | .ok ((vs, its), r') =>
+        .ok ({ name := name, lhs := lhs, cmp := cmp, rhs := rhs, logic := logic, iterVars := vs, iters := its }, r')
+      | .error e => .error e
     match r1 with
     | tk :: r2 =>
       match cmpOfTok tk with
       | some c =>
         match expAt r2 with
-        | .ok (rhs, r3) =>
-          .ok ({ name := name, lhs := lhs, cmp := c, rhs := rhs, logic := false, iterVars := [], iters := [] }, r3)
-        | .error .reject => assertion
+        | .ok (rhs, r3) => finish c rhs false r3
+        | .error .reject => finish .eq (.bool true) true r1
         | .error e => .error e
-      | none => assertion
-    | [] => assertion
+      | none => finish .eq (.bool true) true r1
+    | [] => finish .eq (.bool true) true r1
 
-/-- `constraint` without iteration -/
+/-- `constraint` -/
 def parseConstraint (toks : List Tok) : PRes (PConstraint × List Tok) :=
-  constraintBody (constraintName toks).1 (constraintName toks).2
+  match constraintName toks with
+  | .ok (name, r) => constraintBody name r
+  | .error e => .error e
 
 /-- `constraint_list = { (constraint ~ (nl* ~ constraint)*)? }` -/
 def parseConstraints : Nat → List Tok → List PConstraint → PRes (List PConstraint × List Tok)
@@ -92,16 +123,16 @@ def parseConsts : Nat → List Tok → List (String × PExp) → PRes (List (Str
       | .error e => .error e
     | _ => .ok (acc, toks)
 
-/-- `domain_variables = { (variable ~ comma ~ nl*)* ~ variable }` on simple names -/
-def parseDomainVars : Nat → List Tok → List CName → Option (List CName × List Tok)
-  | 0, _, _ => none
+/-- `domain_variables = { (variable ~ comma ~ nl*)* ~ variable }` -/
+def parseDomainVars : Nat → List Tok → List CName → PRes (List CName × List Tok)
+  | 0, _, _ => .error .fuel
   | f+1, toks, acc =>
-    match toks with
-    | .word w :: .comma :: r =>
-      -- the repetition `(variable ~ comma ~ nl*)*` is possessive: once it has taken `w ,` a variable must follow
-      if isKeyword w then none else parseDomainVars f (skipNl r) (acc ++ [.plain w])
-    | .word w :: r => if isKeyword w then none else some (acc ++ [.plain w], r)
-    | _ => none
+    match nameAt toks with
+    | .error e => .error e
+    -- the repetition `(variable ~ comma ~ nl*)*` is possessive: once it has taken `w ,` a variable must follow
+    | .ok (some n, .comma :: r) => parseDomainVars f (skipNl r) (acc ++ [n])
+    | .ok (some n, r) => .ok (acc ++ [n], r)
+    | .ok (none, _) => .error .reject
 
 /-- `as_value = { "(" ~ (tagged_exp ~ comma)* ~ tagged_exp ~ ")" }` after the `(` -/
 def parseTypeArgs : Nat → List Tok → List PExp → PRes (List PExp × List Tok)
@@ -119,55 +150,45 @@ def isTypeName (w : String) : Bool :=
   | c :: rest => isLetter c && rest.all (fun d => isLetter d || isDigit d)
   | [] => false
 
-/-- `parse_as_assertion_type` -/
-def mkVarType (name : String) (args : Option (List PExp)) : Option PVarType :=
-  match args with
-  | some as =>
-    let lo := as[0]?
-    let hi := as[1]?
-    if name == "IntegerRange" then
-      match lo, hi with
-      | some a, some b => some (.intRange a b)
-      | _, _ => none
-    else if name == "NonNegativeReal" then some (.nonNegReal lo hi)
-    else if name == "Real" then some (.real lo hi)
-    else none
-  | none =>
-    if name == "Boolean" then some .boolean
-    else if name == "Real" then some (.real none none)
-    else if name == "NonNegativeReal" then some (.nonNegReal none none)
-    else none
+/-- what the PEG reads of a domain declaration -/
+structure RawDomain where
+  vars : List CName
+  tyName : String
+  args : Option (List PExp)
+  iterVars : List IterVar
+  iters : List PExp
+  deriving Repr, Inhabited
 
-/-- `domain_declaration` without iteration -/
-def parseDomain (toks : List Tok) : PRes (PDomain × List Tok) :=
+/-- `(nl* ~ for_iteration)?` behind the type of a declaration -/
+def domainFinish (vars : List CName) (ty : String) (args : Option (List PExp)) (r : List Tok) : PRes (RawDomain × List Tok) :=
+  match optFor r with
+  | .ok ((vs, its), r') => .ok ({ vars := vars, tyName := ty, args := args, iterVars := vs, iters := its }, r')
+  | .error e => .error e
+
+/-- `as_value?` and the iteration behind the type name -/
+def domainTail (vars : List CName) (ty : String) (r2 : List Tok) : PRes (RawDomain × List Tok) :=
+  match r2 with
+  | .lpar :: r3 =>
+    match parseTypeArgs (r3.length + 1) r3 [] with
+    | .ok (as, r4) => domainFinish vars ty (some as) r4
+    | .error .reject => domainFinish vars ty none r2      -- `as_value?` fails: the declaration goes on after the type name
+    | .error e => .error e
+  | _ => domainFinish vars ty none r2
+
+/-- `domain_declaration = { domain_variables ~ nl* ~ ^"as" ~ as_assertion ~ (nl* ~ for_iteration)? }`,
+`as_assertion = { (!keyword ~ as_type) ~ as_value? }` -/
+def parseDomain (toks : List Tok) : PRes (RawDomain × List Tok) :=
   match parseDomainVars (toks.length + 1) toks [] with
-  | none => .error .reject
-  | some (vars, r) =>
+  | .error e => .error e
+  | .ok (vars, r) =>
     match skipNl r with
     | .word a :: .word ty :: r2 =>
-      if lowerWord a == "as" && isTypeName ty && !(isKeyword ty) then
-        match r2 with
-        | .lpar :: r3 =>
-          match parseTypeArgs (r3.length + 1) r3 [] with
-          | .ok (as, r4) =>
-            match mkVarType ty (some as) with
-            | some t => .ok ({ vars := vars, ty := t, iterVars := [], iters := [] }, r4)
-            | none => .error .reject
-          | .error .reject =>
-            -- `as_value?` fails: the declaration ends after the type name
-            match mkVarType ty none with
-            | some t => .ok ({ vars := vars, ty := t, iterVars := [], iters := [] }, r2)
-            | none => .error .reject
-          | .error e => .error e
-        | _ =>
-          match mkVarType ty none with
-          | some t => .ok ({ vars := vars, ty := t, iterVars := [], iters := [] }, r2)
-          | none => .error .reject
+      if lowerWord a == "as" && isTypeName ty && !(isKeyword ty) then domainTail vars ty r2
       else .error .reject
     | _ => .error .reject
 
 /-- `domains_declaration = { (nl+ ~ domain_declaration)* }` -/
-def parseDomains : Nat → List Tok → List PDomain → PRes (List PDomain × List Tok)
+def parseDomains : Nat → List Tok → List RawDomain → PRes (List RawDomain × List Tok)
   | 0, _, _ => .error .fuel
   | f+1, toks, acc =>
     match needNl toks with
@@ -178,10 +199,18 @@ def parseDomains : Nat → List Tok → List PDomain → PRes (List PDomain × L
       | .error e => .error e
     | none => .ok (acc, toks)
 
+/-- what the PEG reads of a program -/
+structure RawProgram where
+  objective : RawObjective
+  constraints : List PConstraint
+  constants : List (String × PExp)
+  domains : List RawDomain
+  deriving Repr, Inhabited
+
 /-- `(nl+ ~ ^"define" ~ domains_declaration)? ~ nl* ~ EOI` -/
-def parseDefineEnd (t6 : List Tok) (kind : ObjKind) (obj : PExp) (cs : List PConstraint) (consts : List (String × PExp)) :
-    PRes PModel :=
-  let df : PRes (List PDomain × List Tok) :=
+def parseDefineEnd (t6 : List Tok) (obj : RawObjective) (cs : List PConstraint) (consts : List (String × PExp)) :
+    PRes RawProgram :=
+  let df : PRes (List RawDomain × List Tok) :=
     match needNl t6 with
     | some (.word w :: r) => if lowerWord w == "define" then parseDomains (r.length + 1) r [] else .ok ([], t6)
     | _ => .ok ([], t6)
@@ -189,24 +218,24 @@ def parseDefineEnd (t6 : List Tok) (kind : ObjKind) (obj : PExp) (cs : List PCon
   | .error e => .error e
   | .ok (doms, t7) =>
     match skipNl t7 with
-    | [] => .ok { objKind := kind, objective := obj, constraints := cs, constants := consts, domains := doms }
+    | [] => .ok { objective := obj, constraints := cs, constants := consts, domains := doms }
     | _ => .error .reject
 
 /-- `(nl+ ~ ^"where" ~ consts_declaration)? ~ (nl+ ~ ^"define" ~ domains_declaration)? ~ nl* ~ EOI` -/
-def parseDecls (t5 : List Tok) (kind : ObjKind) (obj : PExp) (cs : List PConstraint) : PRes PModel :=
+def parseDecls (t5 : List Tok) (obj : RawObjective) (cs : List PConstraint) : PRes RawProgram :=
   let wh : PRes (List (String × PExp) × List Tok) :=
     match needNl t5 with
     | some (.word w :: r) => if lowerWord w == "where" then parseConsts (r.length + 1) r [] else .ok ([], t5)
     | _ => .ok ([], t5)
   match wh with
   | .error e => .error e
-  | .ok (consts, t6) => parseDefineEnd t6 kind obj cs consts
+  | .ok (consts, t6) => parseDefineEnd t6 obj cs consts
 
-/-- `problem` and `parse_problem` -/
-def parseProgram (toks : List Tok) : PRes PModel :=
+/-- `problem`: the PEG phase -/
+def parseProgramRaw (toks : List Tok) : PRes RawProgram :=
   match parseObjective (skipNl toks) with
   | .error e => .error e
-  | .ok (kind, obj, t1) =>
+  | .ok (obj, t1) =>
     match needNl t1 with
     | some (.st :: t3) =>
       match needNl t3 with
@@ -214,8 +243,111 @@ def parseProgram (toks : List Tok) : PRes PModel :=
       | some t4 =>
         match parseConstraints (t4.length + 1) t4 [] with
         | .error e => .error e
-        | .ok (cs, t5) => parseDecls t5 kind obj cs
+        | .ok (cs, t5) => parseDecls t5 obj cs
     | _ => .error .reject
+
+/-! ### the AST builders (`parse_problem` and below), with the first error in the order the Rust meets them -/
+
+def firstErr : List (Option String) → Option String
+  | [] => none
+  | some e :: _ => some e
+  | none :: rest => firstErr rest
+
+/-- `parse_objective`: `as_str().parse::<OptimizationType>()` knows the lower-case spellings only -/
+def buildObjective (o : RawObjective) : Except String (ObjKind × PExp) :=
+  match o.body with
+  | some body =>
+    if o.word == "min" then (match buildErr body with | some e => .error e | none => .ok (.min, body))
+    else if o.word == "max" then (match buildErr body with | some e => .error e | none => .ok (.max, body))
+    else .error "objective-kind"
+  | none => if o.word == "solve" then .ok (.solve, .bool true) else .error "objective-kind"
+
+def CName.buildErr : CName → Option String
+  | .plain _ => none
+  | .compound _ idx => buildErrList idx
+
+/-- `parse_constraint`: the name, the iteration, the left side, the right side -/
+def PConstraint.buildErr (c : PConstraint) : Option String :=
+  firstErr [(match c.name with | some n => n.buildErr | none => none), buildErrList c.iters, Syntax.buildErr c.lhs,
+    Syntax.buildErr c.rhs]
+
+/-- `parse_as_assertion_type`: only the first two values are read -/
+def mkVarType (name : String) (args : Option (List PExp)) : Except String PVarType :=
+  match args with
+  | some as =>
+    let lo := as[0]?
+    let hi := as[1]?
+    match firstErr [lo.bind Syntax.buildErr, hi.bind Syntax.buildErr] with
+    | some e => .error e
+    | none =>
+      if name == "IntegerRange" then
+        match lo, hi with
+        | some a, some b => .ok (.intRange a b)
+        | _, _ => .error "integer-range-arity"
+      else if name == "NonNegativeReal" then .ok (.nonNegReal lo hi)
+      else if name == "Real" then .ok (.real lo hi)
+      else .error "unknown-type"
+  | none =>
+    if name == "IntegerRange" then .error "integer-range-arity"
+    else if name == "Boolean" then .ok .boolean
+    else if name == "Real" then .ok (.real none none)
+    else if name == "NonNegativeReal" then .ok (.nonNegReal none none)
+    else .error "unknown-type"
+
+/-- `parse_domain_declaration`: `variables?, as_type?, iteration?` -/
+def buildDomain (d : RawDomain) : Except String PDomain :=
+  match firstErr (d.vars.map CName.buildErr) with
+  | some e => .error e
+  | none =>
+    match mkVarType d.tyName d.args with
+    | .error e => .error e
+    | .ok ty =>
+      match buildErrList d.iters with
+      | some e => .error e
+      | none => .ok { vars := d.vars, ty := ty, iterVars := d.iterVars, iters := d.iters }
+
+def buildDomains : List RawDomain → Except String (List PDomain)
+  | [] => .ok []
+  | d :: ds =>
+    match buildDomain d with
+    | .error e => .error e
+    | .ok x =>
+      match buildDomains ds with
+      | .error e => .error e
+      | .ok xs => .ok (x :: xs)
+
+/-- `parse_problem`: objective, constraints, constants, domains -/
+def buildProgram (p : RawProgram) : Except String PModel :=
+  match buildObjective p.objective with
+  | .error e => .error e
+  | .ok (kind, obj) =>
+    match firstErr (p.constraints.map PConstraint.buildErr) with
+    | some e => .error e
+    | none =>
+      match firstErr (p.constants.map (fun k => buildErr k.2)) with
+      | some e => .error e
+      | none =>
+        match buildDomains p.domains with
+        | .error e => .error e
+        | .ok ds => .ok { objKind := kind, objective := obj, constraints := p.constraints, constants := p.constants, domains := ds }
+
+/-- `problem` and `parse_problem` -/
+def parseProgram (toks : List Tok) : PRes PModel :=
+  match parseProgramRaw toks with
+  | .error e => .error e
+  | .ok raw =>
+    match buildProgram raw with
+    | .ok m => .ok m
+    | .error _ => .error .reject
+
+/-- why a program is rejected: `peg`, or the class of the first error of the AST builders -/
+def programRejectClass (toks : List Tok) : String :=
+  match parseProgramRaw toks with
+  | .error _ => "peg"
+  | .ok raw =>
+    match buildProgram raw with
+    | .ok _ => "none"
+    | .error e => e
 
 inductive ProgRes where
   | ok (m : PModel)
